@@ -1,4 +1,5 @@
 import DarkluaModel.Rules.EmptyDo
+import DarkluaModel.Shared.VisitorSound
 /-!
 # C01 — default rules preserve program behaviour: property theorems
 
@@ -24,5 +25,38 @@ example :
       (.mk [.doBlock (.mk [] none), .callStmt (.call (.var "f") none .tuple [])] none) false).1
       = .mk [.callStmt (.call (.var "f") none .tuple [])] none := by
   simp [Rules.EmptyDo.processBlock, Rules.EmptyDo.filterStmts, Rules.EmptyDo.blockIsEmpty]
+
+/-- **Whole rule, every program**: running `remove_empty_do` (all its visitor passes) on ANY block gives
+a program with the same observable outcome — returned values, raised error, external-call trace — at
+every call level, for every number system, external-call oracle and set of external functions.
+(Lifted from the hook lemma by the generic visitor theorem `Shared/VisitorSound.lean`.) -/
+theorem rule_refines_remove_empty_do (b : Block) {N : NumOps} (ρ : ExtOracle N) (n : Nat)
+    (externs : List String) :
+    runProgram ρ n externs (Rules.EmptyDo.apply b) = runProgram ρ n externs b :=
+  Rules.EmptyDo.apply_refines b ρ n externs
+
+/-- `pipeline_refines`: any list of block transformations that each preserve the observable outcome
+of every program (any selection of rules, any order, repetitions allowed) preserves it as a whole. -/
+theorem pipeline_refines (rules : List (Block → Block))
+    (h : ∀ r ∈ rules, ∀ (b : Block) {N : NumOps} (ρ : ExtOracle N) (n : Nat) (externs : List String),
+      runProgram ρ n externs (r b) = runProgram ρ n externs b)
+    (b : Block) {N : NumOps} (ρ : ExtOracle N) (n : Nat) (externs : List String) :
+    runProgram ρ n externs (rules.foldl (fun acc r => r acc) b) = runProgram ρ n externs b := by
+  induction rules generalizing b with
+  | nil => rfl
+  | cons r rest ih =>
+    simp only [List.foldl_cons]
+    rw [ih (fun r' hr' => h r' (List.mem_cons_of_mem _ hr')) (r b)]
+    exact h r (List.mem_cons_self ..) b ρ n externs
+
+-- non-vacuity: the pipeline [remove_empty_do, remove_empty_do] satisfies the hypothesis
+example (b : Block) {N : NumOps} (ρ : ExtOracle N) (n : Nat) (externs : List String) :
+    runProgram ρ n externs ([Rules.EmptyDo.apply, Rules.EmptyDo.apply].foldl (fun acc r => r acc) b)
+      = runProgram ρ n externs b :=
+  pipeline_refines _ (by
+    intro r hr b N ρ n externs
+    simp at hr
+    subst hr
+    exact rule_refines_remove_empty_do b ρ n externs) b ρ n externs
 
 end DarkluaModel.C01
